@@ -10,13 +10,14 @@ import coqgen
 import rulegen
 import c04
 import c05
+import weights
 from coqgen import Inexpressible
 from vlib import (Check, MachineryError, coq_eval_cases, coq_string, coqc, ensure_theory,
                   gen_dir, probe_json, props_assumptions, write_if_changed)
 
 HEADER = ('From Coq Require Import List Bool String.\n'
           'From PT Require Import Util.Finite Sem.Values Sem.Lit Sem.Syntax Sem.Schema Sem.Closure\n'
-          '  Tab.Node Tab.PropTab Tab.PropSound Tab.PropComplete Tab.PropDecide Tab.TruthTable.\n'
+          '  Tab.Node Tab.PropTab Tab.PropSound Tab.PropComplete Tab.PropDecide Tab.TruthTable Tab.PropTerm.\n'
           'Import ListNotations.\nOpen Scope string_scope.\n'
           'Definition lit_of (n : string) : tables := match lit n with Some t => t | None => '
           '{| t_vals := []; t_des := fun _ => false; t_un := fun _ a => a; t_bin := fun _ a _ => a |} end.\n')
@@ -76,7 +77,7 @@ FIXED = [
 def gen_jobs(logics, tier, seed):
     rng = random.Random(seed)
     jobs = []
-    per_logic_rand = 24 if tier == 'quick' else 160
+    per_logic_rand = 16 if tier == 'quick' else 160
     small = small_sents(1, 2)
     for L in logics:
         n = L['name']
@@ -85,7 +86,7 @@ def gen_jobs(logics, tier, seed):
         # exhaustive-small: conclusion of depth <= 1 over 2 letters, <= 1 premise of depth <= 1 (sampled in quick)
         pairs = [([], c) for c in small] + [([p], c) for p in small for c in small]
         if tier == 'quick':
-            pairs = rng.sample(pairs, 30)
+            pairs = rng.sample(pairs, 20)
         else:
             pairs = rng.sample(pairs, 400)
         for prems, concl in pairs:
@@ -96,7 +97,7 @@ def gen_jobs(logics, tier, seed):
             concl = rand_sent(rng, 2)
             jobs.append(dict(logic=n, premises=prems, conclusion=concl, kind='random'))
         # option combinations on a few
-        for _ in range(4 if tier == 'quick' else 20):
+        for _ in range(2 if tier == 'quick' else 20):
             prems = [rand_sent(rng, 2) for _ in range(rng.choice([1, 2]))]
             concl = rand_sent(rng, 2)
             for go, ro in itertools.product([True, False], repeat=2):
@@ -164,6 +165,22 @@ def emit_logics(chk, g, facts, rules, pid='C03'):
                         'Proof. constructor; [constructor; vm_compute; reflexivity | constructor; vm_compute; reflexivity '
                         '| vm_compute; reflexivity | vm_compute; reflexivity | vm_compute; auto 10 | ' + negp + ' ]. Qed.\n'
                         f'Definition C03_{i} := C03_decides PL_{i} V{L["unassigned"]}.\n')
+        # termination: weight proposal (untrusted hint) checked by the kernel
+        oprules = [it['rule'] for it in data[n] if it['kind'] == 'op' and it['term'] and not it['error']
+                   and it['rule']['name'] not in bad]
+        ws, _ = weights.search(oprules)
+        mmax = max([len(r['variants'][0]['applied'][0]['adds']) for r in oprules] + [1])
+        if ws is None:
+            chk.obligation(f'{n}:term_ok', False)
+            chk.violation(f'terminate:{n}:no-weights',
+                          f'{n}: no linear weight assignment found under which every rule decreases',
+                          dict(kind='obligation', logic=n, obligation=f'term_ok PL_{i}'), found_input=False)
+        else:
+            defs.append(f'Definition WS_{i} : wspec := {weights.coq_wspec(ws)}.\n'
+                        f'Lemma term_{i} : term_ok PL_{i} WS_{i} {mmax}.\n'
+                        'Proof. constructor; vm_compute; reflexivity. Qed.\n'
+                        f'Definition C03_term_{i} := C03.C03_terminates PL_{i} WS_{i} {mmax} term_{i}.\n')
+            chk.obligation(f'{n}:term_ok', True)
         info[n] = dict(ok=base_ok, bad_rules=bad, nrules=len(good))
         chk.obligation(f'{n}:decide_ok(closure,tables,{len(good)} exact rules)', base_ok)
         if not base_ok:
@@ -268,7 +285,7 @@ def run(args) -> int:
     chk.notes['traces_validated_against_impl'] = n_cert
     chk.notes['proofs_run'] = len(res)
     chk.assumptions = props_assumptions('C03')
-    chk.theorems = ['C03_decides', 'C03_tt_valid_meaning', 'C03_open_branch_countermodel', 'C03_closed_unsat']
+    chk.theorems = ['C03_decides', 'C03_tt_valid_meaning', 'C03_open_branch_countermodel', 'C03_closed_unsat', 'C03_terminates']
     chk.rule = ('per logic: decide_ok obligations (kernel); proofs: fixed classics + sampled exhaustive-small (depth<=1, 2 letters, '
                 '<=1 premise) + random depth-2 arguments over 3 letters + 4 option combinations; every real proof is exported as a '
                 'certificate, re-checked by the Coq checker and compared with the executable truth-table oracle; '
@@ -279,7 +296,8 @@ def run(args) -> int:
         'Theorem C03_decides: for every logic with decide_ok discharged, every certificate accepted by check (any legal run, any '
         'options/order) has all leaves closed iff tt_valid_b; tt_valid_b is proved equivalent to the quantified statement. '
         'Per run: the real history is re-validated by check inside Coq (traces_validated_against_impl) so the theorem applies to it. '
-        'Not covered by a theorem yet: the termination bound (no limit/flag is checked per run only).')
+        'C03_terminates bounds the expansion steps of every legal run by (m+1)^weight(trunk) under per-logic linear weights checked by the kernel; '
+        'access-node steps of the frame rules on propositional input are not covered by that bound (no limit/flag is checked per run).')
     return chk.finish()
 
 
